@@ -275,9 +275,11 @@ func vfsWrite(file *vFile, b []byte, off int64, point bool) (int, error) {
 		}
 		return cut, vErrIO
 	}
-	for i := 0; i < n; i++ {
-		vfsPut(file, int(off)+i, b[i])
+	// whole write: no per-byte loop (records with long keys exceed the loop bound of the engine)
+	if end := int(off) + n; len(file.data) < end {
+		file.data = append(file.data, make([]byte, end-len(file.data))...)
 	}
+	copy(file.data[int(off):], b)
 	return n, nil
 }
 
